@@ -190,11 +190,20 @@ def r19(F):
                             if cfg.dominates(cc, t3, bb):
                                 why = "recursive constraint (contains_self_ref), validated statically"
         reasons.append(why)
-    allowed = {"non-constraint value in constraint position (exemplar, shape checked statically)",
-               "recursive constraint (contains_self_ref), validated statically"}
-    ok = set(reasons) <= allowed
-    r.inst("op_check_constraint:Ok-without-check", cc.where(), ok, "only the two listed bypasses: %s" % sorted(set(reasons)) if ok else
-           "op_check_constraint can return Ok without calling check() on an unlisted path: %s" % reasons)
+    # every path that returns Ok without calling check() leaves the value unchecked at run time; the static checker covers it
+    # only when it knows the value's shape (a call result of an untyped function, an included file, ... are unknown to it)
+    TEXT = {"non-constraint value in constraint position (exemplar, shape checked statically)":
+            ("bypass:exemplar", "an exemplar constraint (`:: 0`, `:: {a = \"\"}`) is never checked at run time: a value whose shape the static "
+                                "checker does not know is bound unchecked (`let f = func(a) => a; let x :: 0 = f(\"s\");` builds)"),
+            "recursive constraint (contains_self_ref), validated statically":
+            ("bypass:recursive", "a constraint that refers to itself is never checked at run time: exact arms are not compared "
+                                 "(`constraint n = \"\" | {c=[n]}; let x :: n = \"hello\";` builds, the non-recursive form is rejected)")}
+    for why in sorted(set(reasons)):
+        if why in TEXT:
+            r.inst("op_check_constraint:%s" % TEXT[why][0], cc.where(), False, TEXT[why][1])
+        else:
+            r.inst("op_check_constraint:bypass:unlisted", cc.where(), False,
+                   "op_check_constraint can return Ok without calling check() on a path that is none of the known ones: %s" % reasons)
     # checker
     vs = F.fn("<ucglib::ast::typecheck::Checker as ucglib::ast::walk::Visitor>::visit_statement")
     larm = TR.arm_blocks(vs, "ucglib::ast::Statement", "Let")
